@@ -272,6 +272,7 @@ func cmdVerify(args []string) int {
 		}
 	}
 	wg.Wait()
+	knownList := loadKnown(*verif)
 	for _, o := range res.obls {
 		settled := o.Result.Status == "unsat" || (o.Cover && o.Result.Status != "unsat")
 		if o.Cover && o.Result.Status == "unsat" {
@@ -291,7 +292,12 @@ func cmdVerify(args []string) int {
 			if o.Cover && t > 6 {
 				t = 6 // vacuity checks are advisory: "unknown" is accepted
 			}
-			o.Result = solve(q, tmp, o.Name, t)
+			if matchKnown(knownList, *prop, o.Name) != nil {
+				// a recorded finding: one race, no second (longer) attempt
+				o.Result = solveOnce(q, tmp, o.Name, t, true)
+			} else {
+				o.Result = solve(q, tmp, o.Name, t)
+			}
 			o.Result.Ms += first.Ms
 		}(o)
 	}
